@@ -1,10 +1,117 @@
-(* Props/C16.v — property C16 (placeholder while the proofs are being written) *)
-From Eino Require Import Base.Util Model.Options.
+(* Props/C16.v — property C16: call options reach exactly the nodes they address.
+   Statements only; every proof is [exact <lemma of Proofs/Options.v>].
+
+   Vocabulary (Model/Options.v, Model/OptionsSpec.v):
+     run_call F opts     the run of the compiled top-level graph of forest F with the call
+                         options opts: Err _ if the call fails, else one report per executing
+                         node (r_path, the option values it received, the handlers in its
+                         callback manager)
+     resolve / executes  the node a path designates in the tree unfolding of F / every node
+                         along the path is selected in this call
+     spec_delivered      closed form of "who is addressed": undesignated options of the node's
+                         option type, options designated to the node itself, options designated
+                         to a graph that contains the node (then by type), in call order
+     bad_path            empty path, unknown node, path below a non-graph node, wrong type
+     keys_unique         node keys are the keys of a Go map
+     well_nested         sub graph references point forward in the forest (finite nesting)
+     uniform             all values of one Option have one Go type (guaranteed by the typed
+                         constructors; WithLambdaOption(...any) can violate it) *)
+From Eino Require Import Base.Util Model.Options Model.OptionsSpec Proofs.Options.
 Local Open Scope N_scope.
 
+(* ---- delivered_iff_addressed ------------------------------------------------------- *)
+(* Every report of a component node carries exactly the addressed option values, in call
+   order (and they all have the node's option type) ... *)
+Theorem delivered_iff_addressed :
+  forall F opts rs r its,
+    keys_unique F -> run_call F opts = Ok rs -> In r rs -> r_items r = Some its ->
+    exists nd ty, executes F 0 (r_path r) = true /\ resolve F 0 (r_path r) = Some nd /\
+                  n_kind nd = KComp ty /\ its = spec_delivered opts (r_path r) ty /\
+                  Forall (fun it => fst it = ty) its.
+Proof. exact run_call_delivered_sound. Qed.
+Print Assumptions delivered_iff_addressed.
+
+(* ... and every executing component node, at any nesting depth, has such a report. *)
+Theorem delivered_iff_addressed_complete :
+  forall F opts rs p nd ty,
+    keys_unique F -> run_call F opts = Ok rs ->
+    resolve F 0 p = Some nd -> n_kind nd = KComp ty -> executes F 0 p = true ->
+    exists r, In r rs /\ r_path r = p /\ r_items r = Some (spec_delivered opts p ty).
+Proof. exact run_call_delivered_complete. Qed.
+Print Assumptions delivered_iff_addressed_complete.
+
+(* the closed form, read as a membership statement *)
+Theorem delivered_membership :
+  forall opts p ty it,
+    In it (spec_delivered opts p ty) <->
+    exists o, In o opts /\ In it (o_items o) /\ addresses o p ty.
+Proof. exact spec_delivered_in. Qed.
+Print Assumptions delivered_membership.
+
+(* ---- bad_designation_errors -------------------------------------------------------- *)
+(* The call fails iff some designated path of some option is bad; nothing else makes it fail
+   (for options whose values have one type; a mixed WithLambdaOption(a, b) additionally fails
+   in convertOption of the node it reaches, and by delivered_iff_addressed a call that does
+   not fail never hands a node a value of another type). *)
+Theorem bad_designation_errors :
+  forall F opts,
+    keys_unique F -> well_nested F -> F <> [] -> Forall uniform opts ->
+    (fails (run_call F opts) <->
+     exists o q, In o opts /\ In q (o_paths o) /\ bad_path F o 0 q = true).
+Proof. exact run_call_fails_iff. Qed.
+Print Assumptions bad_designation_errors.
+
+(* ---- non-vacuity -------------------------------------------------------------------- *)
+Definition exF : forest :=
+  [ [mkNode 1 (KComp 6) true true; mkNode 2 (KSub 1%nat) true true; mkNode 3 (KComp 0) false true];
+    [mkNode 1 (KComp 6) true true; mkNode 3 (KComp 7) true true; mkNode 4 (KSub 2%nat) true false];
+    [mkNode 1 (KComp 6) true true] ].
+Definition exOpts : list copt :=
+  [ mkOpt [(6, 100)] [] [];               (* undesignated, type 6 *)
+    mkOpt [(6, 101)] [] [[2; 1]];         (* designated to 2/1 *)
+    mkOpt [(6, 102); (6, 103)] [] [[2]];  (* designated to the sub graph: undesignated inside *)
+    mkOpt [(7, 104)] [] [[2; 3]; [2; 3]]; (* the same path twice: delivered twice *)
+    mkOpt [] [9] [[2; 4; 1]] ].           (* a handler designated into a graph that does not run *)
+
+Example wf_example : keys_unique exF /\ well_nested exF.
+Proof.
+  split.
+  - intros gi g H. destruct gi as [|[|[|gi]]]; simpl in H; try (destruct gi; discriminate);
+      inversion H; subst; simpl; repeat constructor; simpl; intuition discriminate.
+  - intros gi g nd gj H Hin Hk.
+    destruct gi as [|[|[|gi]]]; simpl in H; try (destruct gi; discriminate); inversion H; subst;
+      simpl in Hin; intuition; subst; simpl in Hk; inversion Hk; subst; simpl; lia.
+Qed.
+
 Example run_example :
-  run [[mkNode 1 (KComp 6) true true; mkNode 2 (KSub 1%nat) true true]; [mkNode 1 (KComp 6) true true; mkNode 3 (KComp 7) true true]]
-      (mkCall [BItems [(6, 100)]; BDesignate 0%nat [[2; 1]]; BItems [(7, 101)]] [1%nat; 2%nat])
-  = Ok [mkRep [] None (Some []); mkRep [1] (Some []) (Some []); mkRep [2] None (Some []);
-        mkRep [2; 1] (Some [(6, 100)]) (Some []); mkRep [2; 3] (Some [(7, 101)]) (Some [])].
+  run_call exF exOpts =
+  Ok [ mkRep [] None (Some []);
+       mkRep [1] (Some [(6, 100)]) (Some []);
+       mkRep [2] None (Some []);
+       mkRep [2; 1] (Some [(6, 100); (6, 101); (6, 102); (6, 103)]) (Some []);
+       mkRep [2; 3] (Some [(7, 104); (7, 104)]) (Some []);
+       mkRep [3] (Some []) None ].
 Proof. vm_compute. reflexivity. Qed.
+
+Example spec_example :
+  spec_delivered exOpts [2; 1] 6 = [(6, 100); (6, 101); (6, 102); (6, 103)] /\
+  spec_delivered exOpts [1] 6 = [(6, 100)] /\
+  executes exF 0 [2; 4; 1] = false.
+Proof. vm_compute. auto. Qed.
+
+(* each kind of bad designation, found at depth 2 and inside a graph that does not execute *)
+Example bad_examples :
+  bad_path exF (mkOpt [(6, 1)] [] []) 0 [] = true /\           (* empty path *)
+  bad_path exF (mkOpt [(6, 1)] [] []) 0 [2; 9] = true /\       (* unknown node *)
+  bad_path exF (mkOpt [(6, 1)] [] []) 0 [2; 1; 1] = true /\    (* below a component *)
+  bad_path exF (mkOpt [(6, 1)] [] []) 0 [2; 3] = true /\       (* wrong type *)
+  bad_path exF (mkOpt [(6, 1)] [] []) 0 [3] = true /\          (* passthrough takes no option *)
+  bad_path exF (mkOpt [] [9] []) 0 [2; 4; 7] = true /\         (* callbacks too, in an idle graph *)
+  bad_path exF (mkOpt [(6, 1)] [] []) 0 [2; 4; 1] = false /\
+  fails (run_call exF [mkOpt [] [9] [[2; 4; 7]]]) /\
+  ~ fails (run_call exF exOpts).
+Proof.
+  repeat split; try (vm_compute; reflexivity).
+  - intros a. vm_compute. discriminate.
+  - intros H. eapply H. vm_compute. reflexivity.
+Qed.
